@@ -124,6 +124,15 @@ pub fn outcome<R>(f: impl FnOnce() -> R) -> Outcome<R> {
     }
 }
 
+/// Outcome of an expression that is expected to panic *at the call site inside the harness*
+/// (the same expression on a primitive integer, used as a twin oracle): no harness classification.
+pub fn outcome_here<R>(f: impl FnOnce() -> R) -> Outcome<R> {
+    match catch(f) {
+        Ok(v) => Outcome::Returned(v),
+        Err(p) => Outcome::Panic(format!("{} at {}", p.msg, p.at)),
+    }
+}
+
 pub fn count_cmp(n: u64) {
     CMPS.with(|c| c.set(c.get() + n));
 }
